@@ -105,37 +105,83 @@ theorem dispDeserialize_ok_mem (reg : Bytes → Bool) (es : List (Entry M)) (d :
           exact deserLoop_ok_mem es d m none h
       · exact deserLoop_ok_mem es d m none h
 
-/-! ### resolve (send path) -/
+/-! ### resolve (send path; two-rule loop after fix C25-F1) -/
 
 theorem resolveFrom_none (es : List (Entry M)) (m : M) (k : Nat) :
-    resolveFrom es m k = none ↔ ∀ e ∈ es, e.accepts m = false := by
+    resolveFrom es m k none = none ↔ ∀ e ∈ es, e.accepts m = false := by
+  have key : ∀ (es : List (Entry M)) (k j : Nat), resolveFrom es m k (some j) ≠ none := by
+    intro es
+    induction es with
+    | nil => intro k j; simp [resolveFrom]
+    | cons e es ih =>
+      intro k j
+      unfold resolveFrom
+      by_cases ha : e.accepts m <;> by_cases hx : e.exact <;> simp [ha, hx, ih]
   induction es generalizing k with
   | nil => simp [resolveFrom]
   | cons e es ih =>
     unfold resolveFrom
     by_cases ha : e.accepts m
-    · simp [ha]
+    · by_cases hx : e.exact
+      · simp [ha, hx]
+      · simp [ha, hx, key]
     · simp [ha, ih]
 
-/-- the chosen index is the FIRST entry whose type test passes -/
-theorem resolveFrom_some (es : List (Entry M)) (m : M) (k i : Nat) (h : resolveFrom es m k = some i) :
-    ∃ (j : Nat) (e : Entry M), i = k + j ∧ es[j]? = some e ∧ e.accepts m = true ∧
-      ∀ (j' : Nat) (e' : Entry M), j' < j → es[j']? = some e' → e'.accepts m = false := by
-  induction es generalizing k with
-  | nil => simp [resolveFrom] at h
+/-- whatever the loop returns is the index of an entry whose type test passes -/
+theorem resolveFrom_accepts (full pre es : List (Entry M)) (m : M) (fi : Option Nat) (i : Nat)
+    (hfull : full = pre ++ es)
+    (hfi : ∀ j, fi = some j → ∃ e, full[j]? = some e ∧ e.accepts m = true)
+    (h : resolveFrom es m pre.length fi = some i) :
+    ∃ e, full[i]? = some e ∧ e.accepts m = true := by
+  induction es generalizing pre fi with
+  | nil => simp [resolveFrom] at h; exact hfi i h
   | cons e es ih =>
+    have hget : full[pre.length]? = some e := by simp [hfull]
+    have hfull' : full = (pre ++ [e]) ++ es := by simp [hfull]
+    have hlen : (pre ++ [e]).length = pre.length + 1 := by simp
     unfold resolveFrom at h
     by_cases ha : e.accepts m
-    · simp [ha] at h
-      refine ⟨0, e, by omega, rfl, ha, ?_⟩
-      intro j' e' hj; omega
-    · simp [ha] at h
-      obtain ⟨j, e1, hi, hj, hacc, hbefore⟩ := ih (k + 1) h
-      refine ⟨j + 1, e1, by omega, by simpa using hj, hacc, ?_⟩
-      intro j' e' hlt hget
-      cases j' with
-      | zero => simp at hget; subst hget; simpa using ha
-      | succ j'' => exact hbefore j'' e' (by omega) (by simpa using hget)
+    · by_cases hx : e.exact
+      · simp [ha, hx] at h; subst h; exact ⟨e, hget, ha⟩
+      · simp only [ha, hx, if_true] at h
+        rw [← hlen] at h
+        refine ih (pre ++ [e]) _ hfull' ?_ h
+        intro j hj
+        cases fi with
+        | none => simp at hj; subst hj; exact ⟨e, hget, ha⟩
+        | some j0 => simp at hj; subst hj; exact hfi j0 rfl
+    · simp only [ha] at h
+      rw [← hlen] at h
+      exact ih (pre ++ [e]) fi hfull' hfi h
+
+/-- an exact-type entry that accepts the message wins wherever it sits: the first such entry is returned -/
+theorem resolveFrom_exact (es : List (Entry M)) (m : M) (k : Nat) (fi : Option Nat) (j : Nat) (e : Entry M)
+    (hj : es[j]? = some e) (ha : e.accepts m = true) (hx : e.exact = true)
+    (hfirst : ∀ (j' : Nat) (e' : Entry M), j' < j → es[j']? = some e' → ¬ (e'.accepts m = true ∧ e'.exact = true)) :
+    resolveFrom es m k fi = some (k + j) := by
+  induction es generalizing k fi j with
+  | nil => simp at hj
+  | cons e0 es ih =>
+    cases j with
+    | zero =>
+      simp at hj; subst hj
+      simp [resolveFrom, ha, hx]
+    | succ j =>
+      have h0 := hfirst 0 e0 (by omega) rfl
+      have hrest : ∀ (j' : Nat) (e' : Entry M), j' < j → es[j']? = some e' → ¬ (e'.accepts m = true ∧ e'.exact = true) :=
+        fun j' e' hlt hg => hfirst (j' + 1) e' (by omega) (by simpa using hg)
+      unfold resolveFrom
+      by_cases ha0 : e0.accepts m
+      · have hx0 : e0.exact = false := by
+          cases hh : e0.exact with
+          | false => rfl
+          | true => exact absurd ⟨ha0, hh⟩ h0
+        simp only [ha0, hx0, if_true]
+        rw [ih (k + 1) _ j (by simpa using hj) hrest, show k + 1 + j = k + (j + 1) by omega]
+        simp
+      · simp only [ha0]
+        rw [ih (k + 1) fi j (by simpa using hj) hrest, show k + 1 + j = k + (j + 1) by omega]
+        simp
 
 theorem getElem?_mem' {α} (l : List α) (i : Nat) (a : α) (h : l[i]? = some a) : a ∈ l :=
   List.mem_of_getElem? h
@@ -175,38 +221,12 @@ theorem serLoop_all_fail (es : List (Entry M)) (m : M) (last : Option Err)
       simp only
       exact ih _ (fun e' he' => h e' (List.mem_cons_of_mem _ he'))
 
-/-! ### documented rule vs implemented rule -/
+/-! ### documented rule = implemented rule -/
 
-theorem resolveDocFrom_unshadowed (es : List (Entry M)) (m : M) (k : Nat) (h : shadowedFrom es m false = false) :
-    resolveDocFrom es m k none = resolveFrom es m k := by
-  induction es generalizing k with
-  | nil => simp [resolveDocFrom, resolveFrom]
-  | cons e es ih =>
-    unfold resolveDocFrom resolveFrom
-    unfold shadowedFrom at h
-    by_cases ha : e.accepts m
-    · by_cases hx : e.exact
-      · simp [ha, hx]
-      · simp only [ha, hx, if_true] at h ⊢
-        -- an interface entry accepted first: no exact entry accepting m may follow
-        have key : ∀ (es : List (Entry M)) (k j : Nat), shadowedFrom es m true = false →
-            resolveDocFrom es m k (some j) = some j := by
-          intro es
-          induction es with
-          | nil => intro k j _; simp [resolveDocFrom]
-          | cons e' es' ih' =>
-            intro k j hs
-            unfold resolveDocFrom
-            unfold shadowedFrom at hs
-            by_cases ha' : e'.accepts m
-            · by_cases hx' : e'.exact
-              · simp [ha', hx'] at hs
-              · simp only [ha', hx', if_true] at hs ⊢
-                exact ih' _ _ hs
-            · simp only [ha'] at hs ⊢
-              exact ih' _ _ hs
-        simpa using key es (k + 1) k h
-    · simp only [ha] at h ⊢
-      exact ih (k + 1) h
+theorem resolveFrom_eq_doc (es : List (Entry M)) (m : M) (k : Nat) (fi : Option Nat) :
+    resolveFrom es m k fi = resolveDocFrom es m k fi := by
+  induction es generalizing k fi with
+  | nil => rfl
+  | cons e es ih => unfold resolveFrom resolveDocFrom; simp [ih]
 
 end GoaktVerif.C25
